@@ -539,6 +539,7 @@ class ConvAnalysis(ChangeAnalysis):
                               strip(n.kids[0]) is not None and strip(n.kids[0]).k == "DeclRefExpr"
                               and strip(n.kids[0]).n in self.svars)
         self.grow_sites = 0
+        self.keyerror_sites = 0
         self.live = self._flag_liveness()
 
     def extra_uses(self, node):
@@ -584,6 +585,21 @@ class ConvAnalysis(ChangeAnalysis):
             st = sset(st, "g:1", node.where)
         elif c == ("fn", "_BTree_clear"):
             st = sdel(st, "g:1")
+        elif c == ("fn", "PyErr_SetObject") and len(call.kids) > 1 and \
+                "PyExc_KeyError" in text(call.kids[1]):
+            self.keyerror_sites += 1
+            for k, origin in st:
+                if k.startswith("d:"):
+                    held, s2 = self.ostate(st, k[2:])
+                    if s2 != "F":
+                        nm = k[2:][2:].split("@")[0]
+                        self.vreport("KEYERROR-AFTER-MUT", node, st,
+                                     "KeyError raised after %s was modified [%s]" % (
+                                         nm, origin.split(" ", 1)[-1]),
+                                     "a missing-key error is raised on a path "
+                                     "on which the container has already "
+                                     "been modified: a call that raises must "
+                                     "leave the contents unchanged")
         return ChangeAnalysis._call(self, node, st, call)
 
     def check_exits(self):
@@ -628,12 +644,14 @@ def analyse_conv(tu):
         "exempt": set(),
     }
     findings = []
-    conv_sites = grow_sites = funcs = 0
+    conv_sites = grow_sites = funcs = ke_sites = 0
     for name in tu.order:
         fn = tu.funcs[name]
         has_conv = any(n.mo in CONV_MACROS for n in fn.walk() if n.k == "BinaryOperator")
         has_grow = any(n.k == "CallExpr" and callee(n) == ("fn", "BTree_grow") for n in fn.walk())
-        if not (has_conv or has_grow):
+        has_ke = any(n.k == "CallExpr" and callee(n) == ("fn", "PyErr_SetObject") and
+                     "PyExc_KeyError" in text(n) for n in fn.walk())
+        if not (has_conv or has_grow or has_ke):
             continue
         an = ConvAnalysis(CFG(fn), tu, ctx)
         an.solve()
@@ -641,10 +659,11 @@ def analyse_conv(tu):
         funcs += 1
         conv_sites += an.conv_sites
         grow_sites += an.grow_sites
+        ke_sites += an.keyerror_sites
         for rule, node, st, what, detail in an.vreports:
             findings.append(dict(
                 rule=rule, function=name, file=node.where.split(":")[0], line=node.line,
                 construct=what, detail=detail, path=witness_lines(an.witness(node, st))))
     return dict(findings=findings,
                 stats={"conv_functions": funcs, "conv_status_sites": conv_sites,
-                       "grow_first_leaf_sites": grow_sites})
+                       "grow_first_leaf_sites": grow_sites, "keyerror_sites": ke_sites})
